@@ -32,6 +32,21 @@ def gen_corpus(rng, words, n_sent, max_len):
     return "\n".join(lines) + "\n"
 
 
+def gen_corpus_wide(rng, words, n_sent, max_len):
+    """every word occurs sentence-initially and after a hub word (contexts with as many successors as the vocabulary),
+    plus random sentences"""
+    hub = words[0]
+    lines = []
+    for w in words:
+        lines.append(w + " " + rng.choice(words))
+        if rng.random() < 0.7:
+            lines.append(rng.choice(words) + " " + hub + " " + w)
+    for _ in range(n_sent):
+        lines.append(" ".join(rng.choice(words) for _ in range(rng.randint(1, max_len))))
+    rng.shuffle(lines)
+    return "\n".join(lines) + "\n"
+
+
 def gen_vocab(rng, shared=None):
     pool = list(rng.choice(WORD_POOLS))
     rng.shuffle(pool)
